@@ -17,7 +17,7 @@ import random
 import numpy as np
 
 from .. import fixtures, pool, tlc, tracecheck
-from ..common import seed
+from ..common import inputs_intact, seed, watched_inputs
 
 Q = 256
 DT = {"f4": np.float32, "f8": np.float64, "u1": np.uint8}
@@ -47,6 +47,7 @@ def job(spec):
     def ev(base, fn, reduced_if_int=True):
         e = dict({"f": "", "method": "mean", "x": [], "w": 1, "f1": 1, "f2": 1, "d1": 1, "d2": 1, "A": [[0]], "q": Q, "tol": 2,
                   "reduced": False, "outq": []}, **base)
+        w = watched_inputs(fn)
         try:
             r = np.asarray(fn())
             e["reduced"] = bool(reduced_if_int and r.dtype.kind in "ui")
@@ -54,7 +55,7 @@ def job(spec):
                 e["outq"] = [_q(row, e["reduced"]) for row in r]
             else:
                 e["outq"] = _q(r, e["reduced"])
-            e["outcome"] = "ok"
+            e["outcome"] = "ok" if inputs_intact(w) else "raise:InputModified:the call changed an array it was given"
             e["out_dtype"] = str(r.dtype)
         except Exception as exc:  # noqa: BLE001
             e["outcome"] = f"raise:{type(exc).__name__}:{str(exc)[:60]}"
